@@ -41,3 +41,20 @@ func init() {
 	props["C09"] = propCfg{Level: "exploration", QuickS: 40, ThoroughS: 600, Components: real, Stubs: stub, Rule: rule,
 		Assumptions: []string{"'first rejecting child' is read as lowest index or earliest reply, either accepted", "children answer each EVENT with one OK and each COUNT with one COUNT"}}
 }
+
+func init() {
+	stub := []string{"clients (1-4 scripted actors: pause/resume, clock advance, sync points, cancel / close-inbound)", "downstream handler (records what it receives, emits its own scripted stream of all 7 server message types)", "goroutine scheduler (cooperative, seeded)", "wall clock (testing/synctest, moved only by explicit advance operations)"}
+	common := "rapid draws an event pool (sizes at limit-1/limit/limit+1), a middleware stack, 1-4 client scripts over all five message types (created_at placed at each window boundary +-2s and far inside/outside, relative to the simulated clock), clock jumps, reader pauses, per-session downstream emissions and a schedule. "
+	props["C17"] = propCfg{Level: "exploration", QuickS: 40, ThoroughS: 600,
+		Components: []string{"every limit middleware through the real NewSimpleMiddleware plumbing (both goroutines, instrumented)", "BuildMiddlewareFromNIP11", "event matchers (allow/deny filters)"}, Stubs: stub,
+		Rule: common + "C17: stacks of 1-5 limit middlewares in random order, or the chain built from a NIP-11 document with any subset of the 7 enforced fields (or nil document / no limitation block). Non-trivial: at least two messages judged and a rejection or several clients; distinct = distinct (case, schedule) hash.",
+		Assumptions: []string{"+-1s safety margin around the moving created_at boundary (verdict either way inside it)", "a filter without limit is taken to respect max_limit", "rejections produced by different middlewares of a stack may overtake each other"}}
+	props["C18"] = propCfg{Level: "exploration", QuickS: 40, ThoroughS: 600,
+		Components: []string{"MaxSubscriptions, RecvEventUniqueFilter, SendEventUniqueFilter middlewares (instrumented), hashicorp/golang-lru", "NewSimpleMiddleware plumbing"}, Stubs: stub,
+		Rule: common + "C18: one stateful middleware (quota N or window size 1-3), optionally between deterministic limit middlewares, 1-3 concurrent connections through one middleware value, id alphabets of size N+2. Each connection is judged against its own reference model (LRU window as a relation: must reject inside the window, must pass never-seen ids, may otherwise).",
+		Assumptions: []string{"the window is the last `size` distinct ids by last-seen time", "only a client CLOSE frees a quota slot (as the statement says)"}}
+	props["C19"] = propCfg{Level: "exploration", QuickS: 40, ThoroughS: 600,
+		Components: []string{"middleware/prometheus (instrumented)", "prometheus/client_golang registry and Gather (real)", "NewSimpleMiddleware plumbing"}, Stubs: stub,
+		Rule: common + "C19: the metrics middleware alone or between deterministic limit middlewares, 1-4 concurrent sessions, sessions ending by cancel / close-inbound with subscriptions open; Gather() is compared with the harness truth at every sync point, at the end of the scripts and after all sessions ended. The subscription gauge is judged against all linearizations of REQ/CLOSE (client side) and CLOSED (server side) consistent with the stamped intervals.",
+		Assumptions: []string{"counters and the subscription gauge are compared only at quiescent points where no reader is stalled and no session is being torn down; the connection gauge always"}}
+}
